@@ -848,4 +848,256 @@ theorem scopeOf_svalOf (S : Site) : scopeOf (svalOf S) = S := by
   · subst h; simp [scopeOf]
   · simp [h, scopeOf]
 
+/-! ## pydoctor's alias targets denote what Python binds -/
+
+theorem abs_eq {proj : Project} {m lvl : Nat} {M T T' : Path} (h1 : pdAbsName proj m lvl M = some T)
+    (h2 : pyAbsName proj m lvl M = some T') : T = T' := by
+  unfold pdAbsName at h1; unfold pyAbsName at h2
+  by_cases hl : lvl = 0
+  · simp only [hl, if_true, Option.some.injEq] at h1 h2; rw [← h1, ← h2]
+  · simp only [hl, if_false] at h1 h2
+    rw [Names.relative_level _ _ _ (by omega)] at h1
+    cases hb : Names.pythonRelativeBase (pathOf proj m) (isPkg proj m) lvl with
+    | none => simp [hb] at h1
+    | some b => simp only [hb, Option.some.injEq] at h1 h2; rw [← h1, ← h2]
+
+theorem target_spec {proj : Project} {m lvl : Nat} {M : Path} {t : Nat} (h : target proj m lvl M = some t) :
+    ∃ T, pyAbsName proj m lvl M = some T ∧ modIdx proj T = some t := by
+  unfold target at h
+  cases hT : pyAbsName proj m lvl M with
+  | none => simp [hT] at h
+  | some T => simp only [hT] at h; exact ⟨T, rfl, h⟩
+
+/-- the module pydoctor takes for a star import is the one Python imports -/
+theorem star_target {proj : Project} {m lvl : Nat} {M T : Path} {t t' : Nat}
+    (h1 : pdAbsName proj m lvl M = some T) (hu : ∀ t', modIdx proj T = some t' → t = t')
+    (h2 : target proj m lvl M = some t') : t = t' := by
+  obtain ⟨T', hT', hm⟩ := target_spec h2
+  have := abs_eq h1 hT'; subst this
+  exact hu t' hm
+
+theorem mem_exported_all {proj : Project} {g : Nat → List Name} {t : Nat} {x : Name}
+    (hx : x ∈ allNames (bodyOf proj t)) : x ∈ exported proj g t := by
+  unfold exported
+  simp only [List.mem_append, List.mem_filter, List.mem_eraseDups]
+  by_cases hp : x ∈ (g t).filter isPublic
+  · exact Or.inl (by simpa using hp)
+  · right; refine ⟨hx, ?_⟩
+    simp only [Bool.not_eq_eq_eq_not, Bool.not_true, List.contains_eq_mem, decide_eq_false_iff_not]
+    exact hp
+
+theorem siteBody_zero {proj : Project} {t : Nat} (hlt : t < proj.length) :
+    siteBody proj (t, []) = some (bodyOf proj t) := by
+  unfold siteBody bodyOf
+  cases hx : proj[t]? with
+  | none => rw [List.getElem?_eq_none_iff] at hx; omega
+  | some md => simp [bodyAt]
+
+/-- a star import of scope `S` from `t` may bind `x` when `x` is among the names of `t` -/
+theorem star_mem {proj : Project} {rank : List Nat} (wf : WFacts proj rank) {S : Site} {b : List Stmt}
+    {lvl : Nat} {M T : Path} {t : Nat} {x : Name} (hb : siteBody proj S = some b) (hst : Stmt.importStar lvl M ∈ b)
+    (hT : pdAbsName proj S.1 lvl M = some T) (hu : ∀ t', modIdx proj T = some t' → t = t')
+    (hx : x ∈ allNames (bodyOf proj t) ∨ (starOk proj t x ∧ x ∈ modNames proj (rankOf rank t + 1) t)) :
+    target proj S.1 lvl M = some t ∧ t < proj.length ∧ x ∈ stmtNamesR proj rank S (.importStar lvl M) := by
+  obtain ⟨t', ht', hr⟩ := wf.targets hb hst (target proj S.1 lvl M) (by simp [stmtTargets])
+  have := star_target hT hu ht'; subst this
+  obtain ⟨T', _, hm'⟩ := target_spec ht'
+  refine ⟨ht', (modIdx_spec hm').1, ?_⟩
+  simp only [stmtNamesR, stmtNames, ht']
+  rcases hx with hx | ⟨hok, hx⟩
+  · exact mem_exported_all hx
+  · exact mem_exported (modNames_mono (by omega) hx) hok
+
+/-- every name pydoctor can put into an alias map is bound by a statement of that scope -/
+theorem jpd_names {proj : Project} {rank : List Nat} (wf : WFacts proj rank) :
+    ∀ {S : Site} {x : Name} {tgt : Path}, Jpd proj S x tgt → ∀ b, siteBody proj S = some b →
+      ∃ st ∈ b, x ∈ stmtNamesR proj rank S st := by
+  intro S x tgt h
+  induction h with
+  | @importAs S b tgt x hb hst =>
+    intro b' hb'; rw [hb] at hb'; injection hb' with hb'; subst hb'
+    exact ⟨_, hst, stmtNames_of_explicit (by simp [explicitNames])⟩
+  | @importTop S b h r hb hst =>
+    intro b' hb'; rw [hb] at hb'; injection hb' with hb'; subst hb'
+    exact ⟨_, hst, stmtNames_of_explicit (by simp [explicitNames])⟩
+  | @«from» S b lvl M n a T hb hst _ =>
+    intro b' hb'; rw [hb] at hb'; injection hb' with hb'; subst hb'
+    exact ⟨_, hst, stmtNames_of_explicit (by simp [explicitNames])⟩
+  | @starChild S b lvl M T t x hb hst hT hu hok hx =>
+    intro b' hb'; rw [hb] at hb'; injection hb' with hb'; subst hb'
+    refine ⟨_, hst, (star_mem wf hb hst hT hu (Or.inr ⟨hok, ?_⟩)).2.2⟩
+    rw [modNames_succ]
+    rcases hx with hx | ⟨st, hst', hd⟩
+    · exact List.mem_append_left _ hx
+    · exact List.mem_append_right _ (List.mem_flatMap.2 ⟨st, hst', stmtNames_of_explicit (defName_explicit hd)⟩)
+  | @starAlias S b lvl M T t x tgt hb hst hT hu hok hj ih =>
+    intro b' hb'; rw [hb] at hb'; injection hb' with hb'; subst hb'
+    have hlt : t < proj.length := by
+      obtain ⟨t', ht', _⟩ := wf.targets hb hst (target proj S.1 lvl M) (by simp [stmtTargets])
+      have := star_target hT hu ht'; subst this
+      obtain ⟨T', _, hm'⟩ := target_spec ht'
+      exact (modIdx_spec hm').1
+    obtain ⟨st', hst', hx'⟩ := ih _ (siteBody_zero hlt)
+    refine ⟨_, hst, (star_mem wf hb hst hT hu (Or.inr ⟨hok, ?_⟩)).2.2⟩
+    rw [modNames_succ]
+    exact List.mem_append_right _ (List.mem_flatMap.2 ⟨st', hst', hx'⟩)
+  | @starNone S b lvl M T t x hb hst hT hu hx =>
+    intro b' hb'; rw [hb] at hb'; injection hb' with hb'; subst hb'
+    exact ⟨_, hst, (star_mem wf hb hst hT hu (Or.inl hx)).2.2⟩
+
+/-- **the alias map agrees with Python**: whatever pydoctor's alias map of a scope says a name
+stands for denotes (as an absolute dotted name) what Python binds the name to in that scope -/
+theorem jpd_jpy {proj : Project} {rank : List Nat} (wf : WFacts proj rank) :
+    ∀ {S : Site} {x : Name} {tgt : Path}, Jpd proj S x tgt → ∀ {w : SVal}, Jpy proj S [x] w → AbsDenW proj tgt w := by
+  intro S x tgt h
+  induction h with
+  | @importAs S b tgt x hb hst =>
+    intro w hw
+    rcases jpy_inv wf hw with ⟨hS, c, hc, _⟩ | ⟨b', st', hb', hst', hx', hj'⟩
+    · exfalso
+      obtain ⟨m, cp⟩ := S; simp only at hS; subst hS
+      exact child_not_stmt wf hb (child_mem hc) hst (stmtNames_of_explicit (by simp [explicitNames]))
+    · rw [hb] at hb'; injection hb' with hb'; subst hb'
+      have := same_stmt wf hb hst hst' (stmtNames_of_explicit (by simp [explicitNames])) hx'
+      subst this
+      obtain ⟨_, h, r, top, htg, ht, hv⟩ := hj'
+      subst htg
+      intro r' rest root he hr
+      injection he with e1 e2; subst e1; subst e2
+      rw [ht] at hr; injection hr with hr; subst hr
+      rcases hv with ⟨h0, hv⟩ | ⟨y, ys, h0, hj⟩
+      · exact Or.inl ⟨h0, hv⟩
+      · subst h0; exact Or.inr ⟨by simp, hj⟩
+  | @importTop S b h r hb hst =>
+    intro w hw
+    rcases jpy_inv wf hw with ⟨hS, c, hc, _⟩ | ⟨b', st', hb', hst', hx', hj'⟩
+    · exfalso
+      obtain ⟨m, cp⟩ := S; simp only at hS; subst hS
+      exact child_not_stmt wf hb (child_mem hc) hst (stmtNames_of_explicit (by simp [explicitNames]))
+    · rw [hb] at hb'; injection hb' with hb'; subst hb'
+      have := same_stmt wf hb hst hst' (stmtNames_of_explicit (by simp [explicitNames])) hx'
+      subst this
+      obtain ⟨r1, top, _, ht, hv⟩ := hj'
+      intro r' rest root he hr
+      injection he with e1 e2; subst e1; subst e2
+      rw [ht] at hr; injection hr with hr; subst hr
+      exact Or.inl ⟨rfl, hv⟩
+  | @«from» S b lvl M n a T hb hst hT =>
+    intro w hw
+    rcases jpy_inv wf hw with ⟨hS, c, hc, _⟩ | ⟨b', st', hb', hst', hx', hj'⟩
+    · exfalso
+      obtain ⟨m, cp⟩ := S; simp only at hS; subst hS
+      exact child_not_stmt wf hb (child_mem hc) hst (stmtNames_of_explicit (by simp [explicitNames]))
+    · rw [hb] at hb'; injection hb' with hb'; subst hb'
+      have := same_stmt wf hb hst hst' (stmtNames_of_explicit (by simp [explicitNames])) hx'
+      subst this
+      obtain ⟨_, t, ht, hj⟩ := hj'
+      obtain ⟨T', hT', hm⟩ := target_spec ht
+      have := abs_eq hT hT'; subst this
+      obtain ⟨hlt, hp⟩ := modIdx_spec hm
+      have := AbsDen.ext (canon_mod wf t hlt) (show Jpy proj (scopeOf (.mod t)) [n] w from hj)
+      rw [hp] at this
+      exact this.weak
+  | @starChild S b lvl M T t x hb hst hT hu hok hx =>
+    intro w hw
+    have hm : x ∈ modNames proj (rankOf rank t + 1) t := by
+      rw [modNames_succ]
+      rcases hx with hx | ⟨st, hst', hd⟩
+      · exact List.mem_append_left _ hx
+      · exact List.mem_append_right _ (List.mem_flatMap.2 ⟨st, hst', stmtNames_of_explicit (defName_explicit hd)⟩)
+    obtain ⟨ht', hlt, hxs⟩ := star_mem wf hb hst hT hu (Or.inr ⟨hok, hm⟩)
+    rcases jpy_inv wf hw with ⟨hS, c, hc, _⟩ | ⟨b', st', hb', hst', hx', hj'⟩
+    · exfalso
+      obtain ⟨m, cp⟩ := S; simp only at hS; subst hS
+      exact child_not_stmt wf hb (child_mem hc) hst hxs
+    · rw [hb] at hb'; injection hb' with hb'; subst hb'
+      have := same_stmt wf hb hst hst' hxs hx'
+      subst this
+      obtain ⟨_, t2, ht2, _, hj⟩ := hj'
+      rw [ht'] at ht2; injection ht2 with ht2; subst ht2
+      exact (AbsDen.ext (canon_mod wf t hlt) (show Jpy proj (scopeOf (.mod t)) [x] w from hj)).weak
+  | @starAlias S b lvl M T t x tgt hb hst hT hu hok hj ih =>
+    intro w hw
+    have hlt0 : t < proj.length := by
+      obtain ⟨t', ht', _⟩ := wf.targets hb hst (target proj S.1 lvl M) (by simp [stmtTargets])
+      have := star_target hT hu ht'; subst this
+      obtain ⟨T', _, hm'⟩ := target_spec ht'
+      exact (modIdx_spec hm').1
+    have hm : x ∈ modNames proj (rankOf rank t + 1) t := by
+      obtain ⟨st', hst', hx'⟩ := jpd_names wf hj _ (siteBody_zero hlt0)
+      rw [modNames_succ]
+      exact List.mem_append_right _ (List.mem_flatMap.2 ⟨st', hst', hx'⟩)
+    obtain ⟨ht', hlt, hxs⟩ := star_mem wf hb hst hT hu (Or.inr ⟨hok, hm⟩)
+    rcases jpy_inv wf hw with ⟨hS, c, hc, _⟩ | ⟨b', st', hb', hst', hx', hj'⟩
+    · exfalso
+      obtain ⟨m, cp⟩ := S; simp only at hS; subst hS
+      exact child_not_stmt wf hb (child_mem hc) hst hxs
+    · rw [hb] at hb'; injection hb' with hb'; subst hb'
+      have := same_stmt wf hb hst hst' hxs hx'
+      subst this
+      obtain ⟨_, t2, ht2, _, hj2⟩ := hj'
+      rw [ht'] at ht2; injection ht2 with ht2; subst ht2
+      exact ih hj2
+  | @starNone S b lvl M T t x hb hst hT hu hx =>
+    intro w hw
+    intro r rest root he hr
+    have h1 : x = r ∧ rest = [] := by injection he with e1 e2; exact ⟨e1, e2.symm⟩
+    obtain ⟨rfl, rfl⟩ := h1
+    exact Or.inl ⟨rfl, jpy_root wf hw x root rfl hr⟩
+
+/-! ## a qualified name belongs to one site -/
+
+theorem defSites_here {m : Nat} {pre : List Name} : ∀ {body : List Stmt} {st : Stmt} {n : Name},
+    st ∈ body → st.defName = some n → (m, pre ++ [n]) ∈ defSites m pre body
+  | [], _, _, h, _ => by cases h
+  | x :: xs, st, n, h, hd => by
+    simp only [defSites, List.mem_append]
+    rcases List.mem_cons.1 h with rfl | h'
+    · left; cases st <;> simp_all [Stmt.defName, defSitesStmt]
+    · right; exact defSites_here h' hd
+
+theorem defSites_class {m : Nat} {pre : List Name} {c : Name} {bs : List Path} {b1 : List Stmt} :
+    ∀ {body : List Stmt}, Stmt.classDef c bs b1 ∈ body → ∀ {S}, S ∈ defSites m (pre ++ [c]) b1 → S ∈ defSites m pre body
+  | [], h, _, _ => by cases h
+  | x :: xs, h, S, hS => by
+    simp only [defSites, List.mem_append]
+    rcases List.mem_cons.1 h with rfl | h'
+    · left; simp only [defSitesStmt, List.mem_cons]; exact Or.inr hS
+    · right; exact defSites_class h' hS
+
+theorem defSites_mem {m : Nat} : ∀ {cs pre : List Name} {body b : List Stmt} {st : Stmt} {n : Name},
+    bodyAt body cs = some b → st ∈ b → st.defName = some n → (m, pre ++ cs ++ [n]) ∈ defSites m pre body
+  | [], pre, body, b, st, n, hb, hst, hd => by
+    simp only [bodyAt, Option.some.injEq] at hb; subst hb
+    simpa using defSites_here hst hd
+  | c :: cs, pre, body, b, st, n, hb, hst, hd => by
+    simp only [bodyAt] at hb
+    cases hf : findClass body c with
+    | none => simp [hf] at hb
+    | some b1 =>
+      simp only [hf] at hb
+      obtain ⟨bs, hm⟩ := findClass_mem hf
+      have := defSites_mem (m := m) (pre := pre ++ [c]) hb hst hd
+      have e : pre ++ [c] ++ cs ++ [n] = pre ++ c :: cs ++ [n] := by simp
+      rw [e] at this
+      exact defSites_class hm this
+
+theorem static_mem_entities {proj : Project} {S : Site} (h : StaticSite proj S) : S ∈ entities proj := by
+  obtain ⟨m, cp⟩ := S
+  obtain ⟨hm, hcp⟩ := h
+  simp only at hm hcp
+  unfold entities
+  rw [List.mem_flatMap]
+  refine ⟨m, List.mem_range.2 hm, ?_⟩
+  rcases hcp with hcp | ⟨cp', n, b, st, hcp, hb, hst, hd⟩
+  · subst hcp; exact List.mem_cons_self ..
+  · subst hcp
+    refine List.mem_cons_of_mem _ ?_
+    have := defSites_mem (m := m) (pre := []) (siteBody_bodyAt hb) hst hd
+    simpa using this
+
+theorem site_unique {proj : Project} {rank : List Nat} (wf : WFacts proj rank) {S S' : Site}
+    (h : StaticSite proj S) (h' : StaticSite proj S') (hp : sitePath proj S = sitePath proj S') : S = S' :=
+  nodup_map_inj wf.pathsNodup (static_mem_entities h) (static_mem_entities h') hp
+
 end Imports
